@@ -192,19 +192,19 @@ static SimResult simulate(Built& B, int integ, double acc, double T, int nReport
 }
 
 // Calibrated constants: err <= K * accuracy * scale.  K >= 100x the worst value observed on the unchanged tree over both tiers and
-// all three value sets (table in notes/C11.md); rows for which 100x the worst case would exceed a relative error of ~0.1 are not in the matrix.
+// all three value sets (table in notes/C11.md).  Rows for which 100x the worst case is not clearly below a relative error of 1 are
+// not in the matrix (every integrator at 1e-3, RKM / RKF / CPodes at 1e-5, CPodes at 1e-7, Verlet everywhere).
 static double Kenergy(int integ, int ai) {
-    if (integ == I_RK3) return ai == 1 ? 2e4 : 3e4;
-    if (integ == I_RKM) return ai == 1 ? 2e4 : 3e4;
-    if (integ == I_RKF) return 2e5;
-    return 5e5;   // CPodes
+    if (integ == I_RK3) return ai == 1 ? 1.5e4 : 2e4;    // worst 140 / 164
+    if (integ == I_RKM) return 3e5;                      // worst 2895 (1e-7)
+    return 1e6;                                          // RKF 1e-7: worst 9940
 }
 static double Kmomentum(int integ, int ai) {
-    if (integ == I_RK3) return 2e3;
-    if (integ == I_RKM) return ai == 1 ? 3e3 : 1e4;
-    return 1e5;   // RKF, CPodes at 1e-7
+    if (integ == I_RK3) return ai == 1 ? 1.5e4 : 3e3;    // worst 134 / 26
+    if (integ == I_RKM) return 4e5;                      // worst 3323
+    return 1.3e6;                                        // RKF 1e-7: worst 12020
 }
-static const double K_EULER = 1.0;          // ExplicitEuler sanity row: |dE| <= K_EULER * Escale  (h = 1e-5, first order)
+static const double K_EULER = 0.3;          // ExplicitEuler sanity row (h = 1e-5, gravity only): |dE| <= 0.3 * Escale; worst 2.3e-3
 
 int main(int argc, char** argv) {
     verif::Run run("C11", argc, argv);
@@ -214,7 +214,7 @@ int main(int argc, char** argv) {
     const double T = 1.0; const int NREPORT = 10;
     std::string dumpPath; for (size_t i = 0; i + 1 < run.extra.size(); ++i) if (run.extra[i] == "--dump") dumpPath = run.extra[i + 1];
     run.rule = "E3: cell = (model family: <= 3 bodies from {Pin,Slider,Ball,Free,Universal,Planar,Ellipsoid,Weld} as base/middle/tip/fork member of a grounded tree or behind a free-floating Free base, "
-               "force set {gravity | gravity+springs | springs+undamped bushing | +dampers | damped LinearBushing}, workless constraint {none, Rod, Ball}, integrator {RK3, RKF, RKM, Verlet, CPodes; ExplicitEuler h=1e-4 sanity row}, accuracy {1e-3,1e-5,1e-7}), simulated for 1 s with 10 report times; "
+               "force set {gravity | gravity+springs | springs+undamped bushing | +dampers | damped LinearBushing}, workless constraint {none, Rod, Ball}, (integrator, accuracy) in {(RK3,1e-5), (RK3,1e-7), (RKM,1e-7), (RKF,1e-7); ExplicitEuler h=1e-5 on gravity-only cells as a sanity row}), simulated for 1 s with 10 report times; "
                "distinct = distinct cell; non-trivial = the exchanged energy max KE + max|PE-PE0| exceeds 1e-3 J and the system moves";
     run.assumptions = {"tolerance-based global consequence: the constants K are calibrated on the unchanged tree (notes/C11.md), not derived", "initial states: generic value set of engine/models.h (VERIF_SEED selects one of 3), velocities projected onto the constraint manifold by Integrator::initialize",
                        "constraints are created satisfied at the initial configuration (rod length / ball stations computed from it)", "bushing frames coincide initially; cases whose bushing pitch angle exceeds 1.2 rad are not judged (documented Euler-angle singularity)", "1 s of simulated time, 10 report times"};
@@ -227,8 +227,8 @@ int main(int argc, char** argv) {
     }
     // rows of the matrix for which a useful constant exists (notes/C11.md): (integrator, accuracy index)
     struct Row { int integ, ai; };
-    const std::vector<Row> rows = {{I_RK3, 1}, {I_RK3, 2}, {I_RKM, 1}, {I_RKM, 2}, {I_RKF, 2}, {I_CPODES, 2}};
-    std::vector<int> integs = {I_RK3, I_RKF, I_RKM, I_CPODES};
+    const std::vector<Row> rows = {{I_RK3, 1}, {I_RK3, 2}, {I_RKM, 2}, {I_RKF, 2}};
+    std::vector<int> integs = {I_RK3, I_RKF, I_RKM};
     const bool allRows = run.hasFlag("--all-rows");     // calibration aid: every integrator (incl. Verlet) at every accuracy, oracles still only on the rows above
     if (allRows) integs = {I_RK3, I_RKF, I_RKM, I_VERLET, I_CPODES};
     auto isRow = [&](int integ, int ai) { for (auto& r : rows) if (r.integ == integ && r.ai == ai) return true; return false; };
@@ -242,7 +242,7 @@ int main(int argc, char** argv) {
         if (B.s0.getNU() == 0) { run.count("trivial:no-mobility(all-Weld)"); return; }     // (CPodesIntegrator segfaults on a system without state variables: see notes)
         FILE* dump = dumpPath.empty() ? nullptr : fopen((dumpPath + "." + std::to_string(ui)).c_str(), "w");
         std::vector<int> il = integs;
-        if (u.cons == C_NONE && (u.fset == F_GRAV || u.fset == F_GRAV_SPRINGS) && (u.model % 12) == 0) il.push_back(I_EULER);   // sanity row on a few cells
+        if (u.cons == C_NONE && u.fset == F_GRAV && (u.model % 6) == 0) il.push_back(I_EULER);   // sanity row on a few gravity-only cells (explicit Euler is not usable on the spring sets)
         int onlyInteg = -1, onlyAcc = -1; for (size_t i = 0; i + 1 < run.extra.size(); ++i) { if (run.extra[i] == "--only-integ") onlyInteg = atoi(run.extra[i + 1].c_str()); if (run.extra[i] == "--only-acc") onlyAcc = atoi(run.extra[i + 1].c_str()); }
         for (int integ : il) {
             if (onlyInteg >= 0 && integ != onlyInteg) continue;
